@@ -533,7 +533,14 @@ class Env(gpp.UGenParameter, gpp.NodeParameter):
             self.times = [first_0_then_1 * last_time, *self.times]
             self.release_node += 1
         self.loop_node = 0
+        self._clear_formats()
         return self
+
+    def _clear_formats(self):
+        # The cached server formats are only valid for the values they
+        # were built from (sclang setters do array = nil).
+        self.__envgen_format = None
+        self.__interpolation_format = None
 
     @property
     def duration(self):
@@ -548,6 +555,7 @@ class Env(gpp.UGenParameter, gpp.NodeParameter):
         res = utl.list_binop(
             operator.mul, self.times, 1 / self.total_duration())
         self.times = utl.list_binop(operator.mul, res, value)
+        self._clear_formats()
 
     def total_duration(self):
         '''Duration of the longest envelop (multichannel case).
@@ -592,6 +600,7 @@ class Env(gpp.UGenParameter, gpp.NodeParameter):
         min = utl.list_min(obj.levels)
         max = utl.list_max(obj.levels)
         obj.levels = utl.list_narop(bi.linlin, obj.levels, min, max, lo, hi)
+        obj._clear_formats()
         return obj
 
     def exprange(self, lo=0.01, hi=1.0):
@@ -610,6 +619,7 @@ class Env(gpp.UGenParameter, gpp.NodeParameter):
         min = utl.list_min(obj.levels)
         max = utl.list_max(obj.levels)
         obj.levels = utl.list_narop(bi.linexp, obj.levels, min, max, lo, hi)
+        obj._clear_formats()
         return obj
 
     def curverange(self, lo=0.0, hi=1.0, curve=-4):
@@ -631,6 +641,7 @@ class Env(gpp.UGenParameter, gpp.NodeParameter):
         max = utl.list_max(obj.levels)
         obj.levels = utl.list_narop(
             bi.lincurve, obj.levels, min, max, lo, hi, curve)
+        obj._clear_formats()
         return obj
 
     # TODO
